@@ -804,7 +804,7 @@ def c08(tier, seed):
         rep = {"op": "repeat", "actions": actions}
         if i % 5 == 4 and len(chosen) <= 3:
             # the machine as a struct: its actions are collected by rapid.StateMachineActions (methods ActA, ActB(*T), ActC(TB); Check is the invariant)
-            actions = {nm: body_ for nm, body_ in zip(["ActA", "ActB", "ActC"], actions.values())}
+            actions = {nm: body_ for nm, body_ in zip(["ActA", "ActB", "ActC", "ActD"], list(actions.values()) + [sm_action("ok2", rng), sm_action("ok", rng)])}
             rep = {"op": "repeat", "actions": actions, "val": "struct"}
             if inv is None:
                 inv = [op("incvar", var="i")]
@@ -814,6 +814,10 @@ def c08(tier, seed):
         body.append(draw(g("Bool"), "after"))
         fl = {"checks": rng.choice([5, 30]), "seed": rng.randrange(1, 1 << 64), "steps": rng.choice([0, 1, 1, 5, 5, 30, 30, 200]), "nofailfile": "true",
               "shrinktime": rng.choice(["0s", "300ms", "30s"])}
+        if rep.get("val") == "struct" or i % 4 == 0:
+            fl["v"] = "true"      # the TB is told which action key was drawn
+        if i % 7 == 3 and rep.get("val") != "struct":
+            rep["n"] = 1          # two Repeat phases sharing one actions map
         out.append(scenario("c08-%d-%s" % (i, "+".join(chosen)), {"body": body}, fl, tag={"actions": chosen, "inv": inv is not None}))
     # arbitrary words through the fuzz entry
     for i in range(3 if tier == "quick" else 40):
